@@ -3,4 +3,5 @@ EXTENDS ApiControl
 MCOrder == <<"w1", "w2", "w3">>
 MCOrder2 == <<"w1", "w2">>
 QueueSmall == BagCardinality(K.queue) <= 3
+QueueTiny == BagCardinality(K.queue) <= 2 /\ Len(K.chan) <= 2
 =============================================================================
